@@ -520,3 +520,7 @@ PROPERTY_META["C05"] = dict(
 ob("LEMMA.verus", ["C14", "C04", "C07"], "__verus__", "verus/lemmas.rs", file="verus/lemmas.rs", kind="complete", timeout=600, mem_gb=1,
    functions=["(spec only) (rank,key) order; xor fold; move-list counting"], packaging="Verus lemma file (spec functions only, no executable code)",
    contract="C14: the (rank,key) lexicographic order is a strict total order; C04: xor is commutative/associative/self-inverse, a delta update of a fold equals the fold of the updated key multiset, fold is order-independent; C07: (pawns + 2 e.p. entries) + knights + bishops + rooks + queens + king <= 18 when the side has <= 16 pieces")
+
+# properties whose checks are still being brought up are not claimed in MANIFEST.json until they pass on the unchanged tree
+for _p in ("C01", "C05", "C06"):
+    PROPERTY_META[_p]["claim"] = False
